@@ -1,0 +1,55 @@
+//go:build verif
+
+package peer
+
+// Receive-side access for the conformance harness of property C33 (robustness of the peer
+// protocol against malformed header / height / version announcements). Add-only, tag verif.
+
+import (
+	"github.com/33cn/chain33/system/p2p/dht/protocol"
+	"github.com/33cn/chain33/types"
+	"github.com/libp2p/go-libp2p/core/peer"
+)
+
+// VerifRecv wraps a peer Protocol that serves its stream protocols on env.Host; none of the
+// periodic goroutines of InitProtocol is started, the harness calls the query functions itself.
+type VerifRecv struct {
+	p *Protocol
+}
+
+// VerifRecvNew registers the stream handlers exactly as InitProtocol does.
+func VerifRecvNew(env *protocol.P2PEnv) *VerifRecv {
+	p := &Protocol{P2PEnv: env}
+	protocol.RegisterStreamHandler(p.Host, peerInfoOld, p.handleStreamPeerInfoOld)
+	protocol.RegisterStreamHandler(p.Host, peerInfo, p.handleStreamPeerInfo)
+	protocol.RegisterStreamHandler(p.Host, peerVersionOld, p.handleStreamVersionOld)
+	protocol.RegisterStreamHandler(p.Host, peerVersion, p.handleStreamVersion)
+	protocol.RegisterStreamHandler(p.Host, statisticalInfo, p.handlerStreamStatistical)
+	return &VerifRecv{p: p}
+}
+
+// ProtocolIDs returns the stream protocol ids by name.
+func (v *VerifRecv) ProtocolIDs() map[string]string {
+	return map[string]string{"peerInfoOld": peerInfoOld, "peerInfo": peerInfo, "peerVersionOld": peerVersionOld,
+		"peerVersion": peerVersion, "statistical": statisticalInfo}
+}
+
+// QueryPeerInfo asks pid for its peer info (header, height, version) and decodes the reply.
+func (v *VerifRecv) QueryPeerInfo(pid peer.ID) (*types.Peer, error) { return v.p.queryPeerInfo(pid) }
+
+// QueryPeerInfoOld is the same over the old protocol.
+func (v *VerifRecv) QueryPeerInfoOld(pid peer.ID) (*types.Peer, error) {
+	return v.p.queryPeerInfoOld(pid)
+}
+
+// QueryVersion runs the version / external address exchange with pid.
+func (v *VerifRecv) QueryVersion(pid peer.ID) error { return v.p.queryVersion(pid) }
+
+// QueryVersionOld is the same over the old protocol.
+func (v *VerifRecv) QueryVersionOld(pid peer.ID) error { return v.p.queryVersionOld(pid) }
+
+// RefreshPeerInfo is the body of the periodic refresh: one goroutine per peer, no recover.
+func (v *VerifRecv) RefreshPeerInfo(pids []peer.ID) { v.p.refreshPeerInfo(pids) }
+
+// CheckOutBound is the body of the periodic outbound check.
+func (v *VerifRecv) CheckOutBound(height int64) { v.p.checkOutBound(height) }
